@@ -24,6 +24,15 @@ def h2(a, b):
 def h3(p, q):
     r = p * q
     return r + p
+
+
+def h4(a, b=1.5, c=0.5, d=2.0):
+    return a * b + c / (1.0 + d * d)
+
+
+def h5(x=0.5, y=2.0):
+    """parameters with defaults that are called like the callers' own parameters"""
+    return x * 2.0 + y
 '''
 
 
@@ -84,6 +93,8 @@ class Gen:
             name, ar = rng.choice(fns)
             self.features.add("nested_call")
             args = ", ".join(self.expr(names, depth - 1, None) for _ in range(ar))
+            if name.endswith((".h4", ".h5")):
+                self.features.add("call_leaving_parameters_to_their_defaults" if ar < (4 if name.endswith(".h4") else 2) else "call_of_a_helper_with_defaults_giving_all")
             return f"{name}({args})"
         if r < 0.97:
             self.features.add("math_call")
@@ -329,6 +340,8 @@ class Gen:
         src = [head]
         meta: list[dict] = []
         fns: list[tuple[str, int]] = [(f"{self.helper}.h1", 1), ("h2", 2), (f"{self.helper}.h3", 2), ("h1", 1)]
+        # helpers whose trailing parameters have defaults, called with all, some and none of them left out
+        fns += [(f"{self.helper}.h4", k) for k in (1, 2, 3, 4)] + [(f"{self.helper}.h5", k) for k in (0, 1, 2)]
         # leaf helpers in the same module first, so later functions can call them
         for i in range(nfun):
             npar = rng.randint(1, 3)
